@@ -24,7 +24,7 @@ REQUIRED_MONITORS = ["Exp_SO3_psi", "T_SO3_psi", "T_SO3_dot", "T_SO3_inv_psi", "
 META = {
     "level_text": "Exploration: every SO(3)/SE(3) derivative routine is evaluated on seeded points (log-uniform angles down to 1e-9 and exact zero) and compared with the derivative of an independent 50-digit model of the map; held on the points generated.",
     "level_note": "absolute tolerance 1e-6; reference = mpmath model differentiated by high-order differences in 50-digit arithmetic; finite-difference tie between model and real map only for |psi| >= 1e-3.",
-    "technique": "runtime return-value monitors with mpmath reference-model derivative",
+    "technique": "runtime return-value monitors with mpmath reference-model derivative + representation twins; logarithm derivatives on tangent directions up to pi - 1e-9",
 }
 KINDS = ["Exp_SO3_psi", "T_SO3_psi", "T_SO3_dot", "T_SO3_inv_psi", "Log_SO3_A", "Exp_SE3_h", "Log_SE3_H", "quatT", "purity"]
 TOL = 1e-6
